@@ -64,11 +64,10 @@ import Pog.Lemmas.AliasCover
     generate_never_diverges / generate_value_error_iff   the collision loop terminates; exactly when `generate` raises ValueError
     ✗ generate_never_raises_runtime_error  the text `default_factory` in a property / class name makes the post-condition raise
                                            (counterexample + `generate_ok_partial`)
-    ✗ enum_default_member_exists (F53)     the member name built for an enum default differs from the one `EnumGenerator` gives the value
-                                           (`N/A`, `2x`, integer enums: `Code.1`); exact class `enum_default_member_exact`, partial on
-                                           `[A-Za-z][A-Za-z0-9 _-]*`
+    default_enum_expr / enum_default_expr_by_value (F53 repaired)   an enum default is rendered as a lookup BY VALUE, `Level("N/A")`, `Code(1)`;
+                                           the `enum_default_member_*` theorems record why the member NAME cannot be derived by the old rule
 -/
--- INDEX Pog.DcProps: rendered_defaults_last, render_order_defaults_last, render_order_is_identity, field_line_shape, generate_never_diverges, generate_value_error_iff, generate_default_factory_counterexample, generate_ok_partial, enum_default_member_counterexample, enum_default_expr_counterexample, enum_default_member_exact, enum_default_member_partial, enum_default_member_in_enum_partial, enum_default_wrong_member_counterexample, int_enum_default_never_identifier
+-- INDEX Pog.DcProps: rendered_defaults_last, render_order_defaults_last, render_order_is_identity, field_line_shape, generate_never_diverges, generate_value_error_iff, generate_default_factory_counterexample, generate_ok_partial, enum_default_member_counterexample, enum_default_expr_by_value, default_enum_expr, default_enum_str_expr, enum_default_member_exact, enum_default_member_partial, enum_default_member_in_enum_partial, enum_default_wrong_member_counterexample, int_enum_default_never_identifier
 namespace Pog.C01
 open Pog Pog.Imp Pog.Annot Pog.AliasCover
 
